@@ -153,6 +153,12 @@ func (d *Driver) freeInvoke(op *Op) opResp {
 	} else if f := d.opFault(op, now); f != nil && (f.Kind == FError || f.Kind == FDropReq || f.Kind == FHang || f.Kind == FWatchFail) {
 		resp = opResp{err: faultErr(f.Err)}
 	} else {
+		if f != nil && f.Kind == FSlow {
+			lat2 += f.Arg // the answer comes, but late (later than the library's own time-outs)
+			d.mu.Lock()
+			d.fault(FSlow)
+			d.mu.Unlock()
+		}
 		resp = d.execOnStore(op, now)
 		if resp.sub != nil {
 			// deliveries in free-run mode: pushed directly
